@@ -152,6 +152,14 @@ func runStruct(in, out string, rng *rand.Rand) {
 		l := logger.New(logger.NewTextHandler(c, logger.NewOptions(logger.LevelInfo, false, false)))
 		for _, it := range s.Chain {
 			parent := l
+			for _, other := range s.Chain {
+				if other.Op == "group" {
+					// group names of the chain derived elsewhere in the tree first, directly and from a With-sibling: a handler that
+					// memoises derived groups by name must not hand them out to this chain
+					_ = parent.WithGroup(other.Name)
+					_ = parent.With("decoyT", 7).WithGroup(other.Name)
+				}
+			}
 			if it.Op == "group" {
 				l = l.WithGroup(it.Name)
 			} else {
@@ -163,6 +171,7 @@ func runStruct(in, out string, rng *rand.Rand) {
 			}
 			_ = parent.With("decoy", strings.Repeat("#", 1+rng.Intn(40)), "decoy2", 12345)
 			_ = parent.WithGroup("decoygroup")
+			_ = parent.WithGroup("d") // last, and short enough to fit into whatever spare capacity the parent's group path has
 		}
 		var args []any
 		for _, n := range s.Site {
